@@ -814,8 +814,7 @@ fn diff_history(dir: &str, masked: bool) -> Result<Vec<(String, Value, Value)>, 
 			let rv: Value = $r;
 			let opts = ProjOpts {
 				slots: slots.clone(),
-				heights: true,
-			};
+				heights: true, canon_ids: false };
 			let p = dwallet::with(&c.a, |b| dwallet::project_backend(b, &data, t, &opts)).unwrap();
 			trace.push(($name.to_owned(), rv, p));
 		}};
